@@ -26,6 +26,7 @@ def run(ctx):
     ctx.set("failing_calls_not_given_to_instances_without_failure_channel", info.get("failing_calls_not_given_to_instances_without_failure_channel", 0))
     ctx.set("crashes_contained", sum(1 for r in recs if r.crash is not None))
     ctx.set("value_spaces", info["spaces"])
+    ctx.set("defect_families_observed", cov.get("families", {}))
     ctx.set("instances_cut_short_after_repeated_crashes", info.get("instances_cut_short_after_repeated_crashes", {}))
     if info.get("dropped"):
         ctx.set("configurations_dropped_at_build", info["dropped"])
